@@ -5,7 +5,7 @@ from vlib import ToolError, confirm
 
 
 def run(ctx):
-    ctx.rule = ("exhaustive: 4 advertised subsets x 3 preferences x 3 layouts x 2 prefixes x 4 extra-capability sets (one of them forty capabilities long) x 3 session-ids x echo x {nothing, a line feed} behind the delimiter = 3456 hellos, each under 1 (quick) / 3 (thorough) "
+    ctx.rule = ("exhaustive: 4 advertised subsets x 3 preferences x 4 layouts x 2 prefixes x 4 extra-capability sets (one of them forty capabilities long) x 3 session-ids x echo x {nothing, a line feed} behind the delimiter = 4608 hellos, each under 1 (quick) / 3 (thorough) "
                 "read segmentations; every case is non-trivial (a full Open against a live server model); distinct by scenario x segmentation")
     ctx.assumptions += ["white space only between elements of the hello, never inside a capability URI", "server model decodes the client's stream strictly in the framing the two hellos imply"]
     if ctx.replay:
@@ -19,8 +19,8 @@ def run(ctx):
     if r["violated"]:
         ctx.violation("C09:model:table", "NcHello.tla: Select disagrees with the property's wording:\n" + r["stdout"][-1200:], {"kind": "model"})
     scns = r["scn"]
-    if len(scns) != 3456:
-        raise ToolError("NcHello produced %d scenarios, expected 3456" % len(scns))
+    if len(scns) != 4608:
+        raise ToolError("NcHello produced %d scenarios, expected 4608" % len(scns))
     res = ctx.run_harness("c09", scns, timeout=3000)
     per = 3 if ctx.tier == "thorough" else 1
     if len(res) != len(scns) * per:
